@@ -14,7 +14,7 @@ open Hecs
 
 structure JState where
   engine : String := "world"
-  worlds : WorldJudge.Worlds := []
+  worlds : WorldJudge.MState := {}
   specs : WorldJudge.Specs := []
   /-- the concrete model no longer tracks the implementation in this history -/
   diverged : Bool := false
